@@ -33,6 +33,21 @@ pub fn test_position(pos: &Pos, st: &mut Stats) -> TestResult {
     if let Err(e) = compare_moves(&engine, &reference) {
         return Err(fail_pos(format!("legal moves differ for {:?} to move: {}", pos.side, e), pos));
     }
+    // the same position held by a Game (one case in eight): a new generator on the game's
+    // board must give the same answer
+    if pos.fingerprint() % 8 == 3 {
+        let game = chess::game::game::Game::from_board(to_board(pos), 1);
+        let mut gb = game.board().clone();
+        let mut g2 = MoveGenerator::new();
+        let engine = engine_moves(&mut g2, &mut gb, pos.side);
+        st.count("game_held_boards", 1);
+        if let Err(e) = compare_moves(&engine, &reference) {
+            return Err(fail_pos(
+                format!("legal moves on the board of a Game created from this position differ: {}", e),
+                pos,
+            ));
+        }
+    }
     Ok(())
 }
 
